@@ -964,7 +964,9 @@ class ExternalTensor(TensorBase, _protocols.TensorProtocol):  # pylint: disable=
                             break
                         copied += copied_now
                 except OSError as error:
+                    # EBADF: the destination was opened in append mode
                     if error.errno not in {
+                        errno.EBADF,
                         errno.EINVAL,
                         errno.ENOSYS,
                         errno.EOPNOTSUPP,
